@@ -477,6 +477,62 @@ def cc_part(ctx, d):
     return stats, viol, None
 
 
+def pv_part(ctx, d):
+    """Schedules with Config.PreVote (CheckQuorum in half of them): pre-candidates and
+    MsgPreVote/MsgPreVoteResp are outside the model, so these runs are MONITORED only: the safety
+    predicates are evaluated on the observed states of the real RawNodes."""
+    batches = [(9000000, 300, 400)] if ctx.tier == "quick" else [(9000000, 10000, 400), (9500000, 200, 3000)]
+    tot = ev = leaders = 0
+    viol = None
+    bi = 0
+    for first, count, nev in batches:
+        step = max(1, 800000 // nev)
+        k = first
+        while k < first + count and viol is None:
+            c = min(step, first + count - k)
+            b = d / ("pv%d" % bi)
+            b.mkdir()
+            bi += 1
+            rc, out = lib.sh("%s simpv . %d %d %d %d" % (lib.BUILD / HARNESS, ctx.seed, k, c, nev), cwd=b, timeout=3000)
+            if rc != 0:
+                return {}, None, "harness_raft simpv failed: " + out[-2000:]
+            rc, out = lib.sh("%s monitor traces.txt monitor.txt" % (lib.BUILD / RUNNER), cwd=b, timeout=6000)
+            if rc != 0:
+                return {}, None, "raftrun monitor failed: " + out[-2000:]
+            for line in (b / "monitor.txt").read_text().splitlines():
+                t = line.split()
+                if len(t) < 3:
+                    continue
+                tot += 1
+                if t[2] == "SAFE":
+                    kv = dict(x.split("=", 1) for x in t[3:] if "=" in x)
+                    ev += int(kv["events"])
+                    leaders += int(kv["leaders"])
+                elif viol is None:
+                    header, evs = schedule_of(b / "traces.txt", t[1])
+                    fe = fail_event(line)
+                    if fe:
+                        evs = evs[:fe]
+                    shr, v = sim_shrink(b, header, evs, mode="monitor")
+                    v2, trace = sim_eval(b, [header] + shr, tag="final", mode="monitor")
+                    if not v2 or " UNSAFE " not in v2:
+                        v2 = line + "   [NOT reproduced by the explicit replay of its schedule: original verdict shown]"
+                    viol = dict(kind="safety-violation", found_input=True, schedule=int(t[1]), seed=ctx.seed,
+                                with_prevote=True, reason=fail_reason(v2), verdict=v2, header=header,
+                                events=shr, trace_tail=trace.splitlines()[-14:],
+                                theorem="(PreVote/CheckQuorum are outside the model) safety predicates of C15 evaluated on the observed states of the real RawNodes",
+                                note=NOTE + "; header flags: 1 = Config.PreVote, 2 = Config.CheckQuorum; XPV/XPW = MsgPreVote/MsgPreVoteResp; role Q = pre-candidate")
+            if viol is None:
+                try:
+                    (b / "traces.txt").unlink()
+                except OSError:
+                    pass
+            k += c
+    stats = dict(pv_schedules=tot, pv_events=ev, pv_terms_with_a_leader=leaders,
+                 pv_scope="; ".join("%d schedules x %d events" % (c, n) for _, c, n in batches))
+    return stats, viol, None
+
+
 def replay_sim(ctx, r, d):
     mode = "monitor" if r.get("kind") == "safety-violation" else ("tracecc" if r.get("kind") == "trace-validation-cc" else "trace")
     v, trace = sim_eval(d, [r["header"]] + r["events"], tag="replay", mode=mode)
@@ -523,6 +579,10 @@ def run(ctx):
             st3, viol, cb = cc_part(ctx, d)
             stats.update(st3)
             broken = broken or cb
+        if viol is None and not broken:
+            st4, viol, pb_ = pv_part(ctx, d)
+            stats.update(st4)
+            broken = broken or pb_
     rc = 0
     if viol:
         lib.violation(PID, viol, found_input=viol.get("found_input", True))
@@ -548,6 +608,8 @@ def run(ctx):
         sim=dict((k, v) for k, v in stats.items() if k.startswith("sim_") and k != "sim_samples"),
         membership_change_exploration=dict(
             (k, v) for k, v in stats.items() if k.startswith("cc_")) or None,
+        prevote_checkquorum_monitoring=dict((k, v) for k, v in stats.items() if k.startswith("pv_")) or None,
+        prevote_checkquorum_note="MONITOR ONLY: schedules with Config.PreVote = true (Config.CheckQuorum = true in half of them, small election timeouts in half) are outside the model (pre-candidate role, MsgPreVote/MsgPreVoteResp, leases); the same adversarial scheduler runs them (pre-vote responses are often kept in flight and re-delivered late) and only the safety predicates on the observed states are evaluated (raftrun monitor); not counted in evaluations",
         membership_change_note="schedules with ProposeConfChange (add/remove a voter, joint add+remove with automatic leave; applied when committed) are (a) validated event by event against the membership-change model RaftCC.exec_cc by the extracted check_step_cc (exact equality of term/vote/commit/role/lead/log AND of the node's configuration; sound w.r.t. RaftCC.cxstep) — these events are counted in evaluations — and (b) monitored: the safety predicates are evaluated on the observed states.  The SAFETY theorems cover such runs only inside a family of pairwise-intersecting configurations (C15_cc_*_partial); the general chain argument of joint consensus is not proved",
         correspondence="(D) quorum.{MajorityConfig,JointConfig}.{CommittedIndex,VoteResult} (built from VERIF_REPO working tree) vs extracted Gallina majority_/joint_ functions, compared on every case; (V) raft.RawNode + MemoryStorage (built from VERIF_REPO) vs extracted check_step on every event",
     ))
